@@ -523,6 +523,19 @@ func (x *executor) doCall(ti, ci int, ctx *callCtx) {
 	}
 	res.FaultHit = ctx.fired
 	res.Trace = ctx.trace
+	if hp := os.Getenv("VERIF_HEAPPROF"); hp != "" {
+		for k, o := range out {
+			if o != nil && o.Shape().TotalSize() > 1<<20 {
+				if f, err := os.OpenFile(hp+".big", os.O_APPEND|os.O_CREATE|os.O_WRONLY, 0o644); err == nil {
+					fmt.Fprintf(f, "model=%s ops=%v out=%s shape=%v\n", lm.spec.Name, lm.spec.Ops, k, o.Shape())
+					for ik, it := range in {
+						fmt.Fprintf(f, "   in %s %v\n", ik, it.Shape())
+					}
+					f.Close()
+				}
+			}
+		}
+	}
 	if res.Kind == "ok" {
 		res.Out = snapAll(out)
 		res.outObjs = out
